@@ -126,7 +126,7 @@ CLAIMED = {
             "the real decoder with frame size/clean area, frame rate, pixel aspect ratio and signal ranges symbolic (8/12-bit): z3 proves every "
             "decoded video parameter and the coding mode equal the request; enum-valued parameters (every single deviation and every colour "
             "primaries x matrix x transfer function combination) and all real (level, format, profile) combinations are enumerated.",
-            "Trusted: symx, z3. Regular formats only (frame size multiples of 4 when symbolic). Bound: 2/6 alternatives, 8/12-bit values.",
+            "Trusted: symx, z3. Regular formats only (frame size multiples of 4 when symbolic). Bound: 2/3 alternatives, 8/10-bit values.",
             "symbolic execution of the real header generator, serialiser and decoder (symx) + z3", "3 C15"),
     "C28": (MC,
             "CrossHair (symbolic str, z3) confirms contracts over parse_int_at_least / parse_int_enum on all short strings of a small "
